@@ -142,6 +142,22 @@ class CArr:
         self.ndim = src.ndim
 
 
+def _hilbert_length(x, N):
+    """scipy.signal.hilbert(x, N) returns N samples (zero-padded or cropped): the analytic signal has one value per input sample only when the
+    transform length is the record length"""
+    core.C().oblige('hilbert:transform-length-is-the-record-length', z3.BoolVal(True) if N is None else (lift(N) == x.shape_e[0]), 'pre')
+
+
+class FFTShim:
+    """scipy.fft.next_fast_len by contract: SOME length that is not shorter than its argument"""
+    @staticmethod
+    def next_fast_len(n, *a, **k):
+        c = core.C()
+        m = c.fresh('fast_len', I)
+        c.assume(m >= lift(n))
+        return SInt(m)
+
+
 def _mk_ft(c):
     _ax(c)
     x, X = mat('imf', N, 2)
@@ -153,8 +169,9 @@ def _call_ft(f, c, a, kw):
 
     class Sig:
         @staticmethod
-        def hilbert(x, axis=0):
+        def hilbert(x, N=None, axis=0):
             core.C().oblige('hilbert-along-time-axis', z3.BoolVal(axis == 0), 'post')
+            _hilbert_length(x, N)
             return CArr(x)
 
     class NPx:
@@ -173,6 +190,7 @@ def _call_ft(f, c, a, kw):
         c2.ghost['smoothing'] = smoothing
         return SArr(sig.src.shape_e, lambda i, j: UNW(i, j), 'f')
     g['signal'] = Sig
+    g['fft'] = FFTShim
     g['np'] = NPx()
     g['phase_from_complex_signal'] = pfcs
 
@@ -229,8 +247,9 @@ def _call_ft2(f, c, a, kw):
 
     class Sig:
         @staticmethod
-        def hilbert(x, axis=0):
+        def hilbert(x, N=None, axis=0):
             core.C().oblige('hilbert-along-time-axis', z3.BoolVal(axis == 0), 'post')
+            _hilbert_length(x, N)
             r = CArr(x)
             r.tag = 'hilbert-of-normalised' if getattr(x, 'tag', None) == 'normalised' else 'hilbert-of-something-else'
             return r
@@ -270,6 +289,7 @@ def _call_ft2(f, c, a, kw):
             # unit precondition: every column is an IMF with an upper envelope (a column without one gives a NaN amplitude column)
             return SArr((N,), lambda t, j=j: ENVUP(t, z3.IntVal(j)), 'f')
     g['signal'] = Sig
+    g['fft'] = FFTShim
     g['phase_from_complex_signal'] = pfcs
     g['quadrature_transform'] = quadrature_transform
     g['utils'] = Utils
